@@ -510,13 +510,16 @@ class StmtMixin:
             if isinstance(c, Raise):
                 yield st1, c
                 continue
-            kind = o.refcls(st1, c, ("list", "tuple", "dict"))
+            kind = o.refcls(st1, c, ("list", "tuple", "dict", "Element"))
+            is_element = kind == "Element"
+            if is_element:
+                kind = "list"       # the children of an Element, in order; each is an Element
             if kind in ("list", "tuple"):
                 r = o.r(c)
                 items = st1.rd("$items", r)
                 n = o.seq_len(st1, r)
 
-                vt = (c.aux or {}).get("v")
+                vt = "ref:Element" if is_element else (c.aux or {}).get("v")
 
                 def elem(s, i, items=items, vt=vt, n=n):
                     v = z3.Select(items, i)
